@@ -82,6 +82,10 @@ func c13(r *core.Run) {
 				}
 			}
 		}
+		// the same screen handing back the decoded answer as a whole: (SentinelResponse, error)
+		if len(rt) == 2 && isErrorType(rt[1]) && core.IsNamed(rt[0], modelsPath(p), "SentinelResponse") && p.IsProdFunc(fn) {
+			sentinels = append(sentinels, fn)
+		}
 	}
 	// producer: callee of a mapper returning (LLMResult, error)
 	prodSet := map[*ssa.Function]bool{}
@@ -550,14 +554,46 @@ func c13Producer(r *core.Run, pr *ssa.Function, validators, sentinels []*ssa.Fun
 					return ok && e.Tuple == ssa.Value(sc) && e.Index == idx
 				}
 			}
+			if sc.Call.Signature().Results().Len() == 2 {
+				// (answer, error): safe is the answer's Safe field
+				isSafe := func(x ssa.Value) bool {
+					base, ok := core.FieldLoad(x, "Safe")
+					if !ok {
+						return false
+					}
+					for _, o := range core.Origins(core.LoadOf(base)) {
+						if isEx(0)(o) {
+							return true
+						}
+					}
+					if al, ok := base.(*ssa.Alloc); ok {
+						for _, st := range core.StoresTo(al) {
+							if isEx(0)(st.Val) {
+								return true
+							}
+						}
+					}
+					return isEx(0)(base)
+				}
+				ok1, n1, p1 := core.MustPass(pr, ret.Block(), core.BoolGuard(isSafe, true))
+				r.Check(ok1 && n1 > 0, "C13.LLM", construct+"/sentinel-safe", ret.Pos(), "provider value returned only when the sentinel answered safe", "the provider's verdict is returned although the injection screen did not answer safe ("+core.FmtPath(p1)+")")
+				ok2, n2, p2 := core.MustPass(pr, ret.Block(), core.NilGuard(isEx(1)))
+				r.Check(ok2 && n2 > 0, "C13.LLM", construct+"/sentinel-err", ret.Pos(), "provider value returned only when the sentinel call succeeded", "the provider's verdict is returned although the sentinel call failed ("+core.FmtPath(p2)+")")
+				continue
+			}
 			ok1, n1, p1 := core.MustPass(pr, ret.Block(), core.BoolGuard(isEx(0), true))
 			r.Check(ok1 && n1 > 0, "C13.LLM", construct+"/sentinel-safe", ret.Pos(), "provider value returned only when the sentinel answered safe", "the provider's verdict is returned although the injection screen did not answer safe ("+core.FmtPath(p1)+")")
 			ok2, n2, p2 := core.MustPass(pr, ret.Block(), core.NilGuard(isEx(2)))
 			r.Check(ok2 && n2 > 0, "C13.LLM", construct+"/sentinel-err", ret.Pos(), "provider value returned only when the sentinel call succeeded", "the provider's verdict is returned although the sentinel call failed ("+core.FmtPath(p2)+")")
 		}
-		// (ii) provider err == nil: the returned value's origins are Extract#0 of calls; their #1 must be nil
+		// (ii) provider err == nil: the returned value's origins are Extract#0 of calls (or the zero value, which no
+		// validator accepts); the error that travels with each of them must be nil. Value and error may be merged
+		// by parallel phis (several providers assigning the same pair of variables): they are walked in lockstep.
 		tuples := map[ssa.Value]bool{}
 		for _, o := range core.Origins(res) {
+			if isZeroValue(o) {
+				continue
+			}
 			ex, ok := o.(*ssa.Extract)
 			if !ok || ex.Index != 0 {
 				r.Fail("C13.LLM", construct+"/origin", ret.Pos(), "returned value originates from "+core.Canon(o)+", not from a provider call")
@@ -565,14 +601,50 @@ func c13Producer(r *core.Run, pr *ssa.Function, validators, sentinels []*ssa.Fun
 			}
 			tuples[ex.Tuple] = true
 		}
+		var paired func(e, v ssa.Value, d int) bool
+		paired = func(e, v ssa.Value, d int) bool {
+			if d > 6 {
+				return false
+			}
+			v = core.LoadOf(v)
+			e = core.LoadOf(e)
+			if isZeroValue(v) {
+				return true
+			}
+			if vx, ok := v.(*ssa.Extract); ok && vx.Index == 0 {
+				ex, ok := e.(*ssa.Extract)
+				return ok && ex.Tuple == vx.Tuple && ex.Index == 1
+			}
+			vp, ok1 := v.(*ssa.Phi)
+			ep, ok2 := e.(*ssa.Phi)
+			if ok1 && ok2 && vp.Block() == ep.Block() {
+				for i := range vp.Edges {
+					if !paired(ep.Edges[i], vp.Edges[i], d+1) {
+						return false
+					}
+				}
+				return true
+			}
+			if ok1 && !ok2 {
+				// the value is merged, the error is not: every non-zero incoming value must come from e's call
+				for _, ed := range vp.Edges {
+					if !paired(e, ed, d+1) {
+						return false
+					}
+				}
+				return true
+			}
+			return false
+		}
 		errPred := func(x ssa.Value) bool {
+			all := true
 			for _, o := range core.Origins(x) {
 				e, ok := o.(*ssa.Extract)
 				if !ok || e.Index != 1 || !tuples[e.Tuple] {
-					return false
+					all = false
 				}
 			}
-			return true
+			return all || paired(x, res, 0)
 		}
 		ok3, n3, p3 := core.MustPass(pr, ret.Block(), core.NilGuard(errPred))
 		r.Check(ok3 && n3 > 0, "C13.LLM", construct+"/provider-err", ret.Pos(), "provider value returned only on provider err == nil", "the provider's value is returned although the provider call failed ("+core.FmtPath(p3)+")")
@@ -582,7 +654,7 @@ func c13Producer(r *core.Run, pr *ssa.Function, validators, sentinels []*ssa.Fun
 			if !ok || !isIn(core.StaticCallee(&c.Call), validators) {
 				return false
 			}
-			return c.Call.Args[0] == res
+			return c.Call.Args[0] == res || slotOf(c.Call.Args[0]) == slotOf(res) // by value or by pointer
 		}
 		ok4, n4, p4 := core.MustPass(pr, ret.Block(), core.NilGuard(valPred))
 		r.Check(ok4 && n4 > 0, "C13.LLM", construct+"/validated", ret.Pos(), "provider value returned only when the validator accepted this very value", "the provider's value is returned without passing output validation ("+core.FmtPath(p4)+")")
@@ -594,6 +666,52 @@ func c13Sentinel(r *core.Run, s *ssa.Function) {
 	sn := core.FuncName(s)
 	p := r.P
 	nOK := 0
+	if len(resultTypes(s)) == 2 {
+		// (SentinelResponse, error): an error return carries the zero answer (Safe == false); a success return is
+		// the variable that json.Unmarshal just filled
+		for _, ret := range core.Returns(s) {
+			if !core.IsNilConst(ret.Results[1]) {
+				zero := isZeroValue(ret.Results[0])
+				if !zero {
+					if v, ok := core.StructLitField(ret.Results[0], "Safe"); ok {
+						c, isC := v.(*ssa.Const)
+						zero = v == nil || (isC && c.Value != nil && c.Value.String() == "false")
+					}
+				}
+				r.Check(zero, "C13.SENT", sn+"#error-return", ret.Pos(), "the zero answer (safe=false) on an error return", "the sentinel returns "+core.Canon(ret.Results[0])+" together with an error")
+				continue
+			}
+			nOK++
+			u, isLoad := ret.Results[0].(*ssa.UnOp)
+			if !isLoad {
+				r.Fail("C13.SENT", sn+"#success-return", ret.Pos(), "on success the sentinel returns "+core.Canon(ret.Results[0])+" instead of the decoded answer")
+				continue
+			}
+			base := u.X
+			pred := func(x ssa.Value) bool {
+				c, ok := callTo(x, "encoding/json.Unmarshal")
+				return ok && core.Unwrap(c.Call.Args[1]) == base
+			}
+			ok2, n2, path := core.MustPass(s, ret.Block(), core.NilGuard(pred))
+			r.Check(ok2 && n2 > 0, "C13.SENT", sn+"#success-return", ret.Pos(), "the answer is returned only after a successful Unmarshal into the same variable", "the answer is returned without a successful decode ("+core.FmtPath(path)+")")
+			errPred := func(x ssa.Value) bool {
+				for _, o := range core.Origins(x) {
+					e, ok := o.(*ssa.Extract)
+					if !ok || e.Index != 1 {
+						return false
+					}
+					if c, ok := e.Tuple.(*ssa.Call); !ok || core.StaticCallee(&c.Call) == nil || !p.IsProdFunc(core.StaticCallee(&c.Call)) {
+						return false
+					}
+				}
+				return true
+			}
+			ok3, n3, p3 := core.MustPass(s, ret.Block(), core.NilGuard(errPred))
+			r.Check(ok3 && n3 > 0, "C13.SENT", sn+"#success-needs-call-ok", ret.Pos(), "success only when the raw provider call succeeded", "the sentinel can answer although its provider call failed ("+core.FmtPath(p3)+")")
+		}
+		r.Floor("C13.SENT", "success returns in "+sn, nOK, 1)
+		return
+	}
 	for _, ret := range core.Returns(s) {
 		if !core.IsNilConst(ret.Results[2]) {
 			c, isC := ret.Results[0].(*ssa.Const)
@@ -1146,4 +1264,11 @@ func usesCryptoRand(fn *ssa.Function) bool {
 		}
 	})
 	return found
+}
+
+
+// isZeroValue: the zero value of a type (a nil-valued constant of struct type or an empty composite).
+func isZeroValue(v ssa.Value) bool {
+	c, ok := v.(*ssa.Const)
+	return ok && c.Value == nil
 }
